@@ -72,6 +72,7 @@ INITIAL = {1: 10, 2: 20}
 # s: `list(Cls.select())` inside the body (a read through the transaction)
 ALPHABET = ['c3', 'c1', 'u1', 'd1', 'u2', 'U1', 'D2', 's']
 K_STALE_RB = 'C08:stale-after-rollback:preloaded-instance-assigned-in-body'
+K_EVICT = 'C08:stale-after-commit:held-instance-evicted-by-rollback-in-del'
 DUP_ID, NF_ID = 1000001, 1000002
 _env = {}
 
@@ -789,6 +790,8 @@ def chained_runs(ctx, e):
                     c.autoCommit = True
                 caller.call('preload', mode)
                 rows = dict(INITIAL)
+                evicted = set()      # rows a BaseException-aborted call fetched inside its body: Transaction.__del__ rolls back AFTER
+                                     # the hub was restored, and the expire() of its instances then hits the parent cache (recorded finding)
                 desc = {'chain': [list(x) for x in plan], 'cfg': cfg, 'ac': ac, 'cache': e['variant'][0], 'declared': e['variant'][1],
                         'preloaded_by': mode}
                 for i, (sym, raises) in enumerate(plan):
@@ -802,6 +805,8 @@ def chained_runs(ctx, e):
                     want, want_exc, _ = reference_from(rows, steps, len(steps) if raises else None)
                     if want_exc is None:
                         rows = want
+                    if raises == 'K':
+                        evicted.update(k for (op, k, _) in steps if op in 'ud')
                     raw = raw_rows(e)
                     for c in e['conns']:
                         c.autoCommit = True
@@ -812,7 +817,11 @@ def chained_runs(ctx, e):
                         ctx.oracle_fail(key + ':rows', 'after call %d of the chain the committed rows are%s, expected%s'
                                         % (i + 1, fmt_rows(raw), fmt_rows(rows)), desc)
                     for k, v in sorted(held.items()):
-                        if v != raw.get(k):
+                        if v != raw.get(k) and k in evicted and want_exc is None:
+                            known_once(ctx, 'after a doInTransaction aborted by a BaseException (rolled back by Transaction.__del__ after the hub '
+                                       'was restored) the kept instance of row %d is no longer in the parent cache: call %d of the chain '
+                                       'committed %s, the instance shows %s' % (k, i + 1, raw.get(k), v), desc, K_EVICT)
+                        elif v != raw.get(k):
                             ctx.oracle_fail(key + ':orm-stale-held', 'after call %d of the chain the instance of row %d kept from before '
                                             'the first call shows %s on the restored connection; the row holds %s'
                                             % (i + 1, k, v, raw.get(k)), desc)
